@@ -27,7 +27,7 @@ func propC03(r *kernel.Run) {
 	if _, err := rotation.RotateRootCertificates(w.Ctx, w.Storage, w.Opts()...); err != nil {
 		r.HarnessErr("bootstrap roots: %v", err)
 	}
-	ncases := tp.Range(10, 40)
+	ncases := tp.Range(10, r.Deep(40, 120))
 	other := NewIdent("other")
 	otherReq, _ := BuildFetch(HonestSpec(other))
 	for ci := 0; ci < ncases; ci++ {
